@@ -282,3 +282,45 @@ class SimModel:
         row = self.c.tables[cfg][slot.table][slot.index]
         f = self.c.units[cfg].funcs.get(row['func'])
         return 'c/csimulator.c:%d' % (f['line'] if f else row['line'])
+
+def _const_delta(term, reg):
+    """term == (reg + k) [& 0xFFFF] -> k ; unchanged -> 0 ; otherwise None."""
+    t = term
+    if t == ('reg', reg):
+        return 0
+    if t[0] == '&' and len(t) == 3 and t[2] == C(0xFFFF):
+        t = t[1]
+    if t == ('reg', reg):
+        return 0
+    if t[0] == '+' and ('reg', reg) in t[1:]:
+        rest = [x for x in t[1:] if x != ('reg', reg)]
+        k = 0
+        for x in rest:
+            if isc(x):
+                k += x[1]
+            elif x[0] == 'contend':
+                continue
+            else:
+                return None
+        return k
+    return None
+
+def summarize(canon_items):
+    """-> dict(pc={consts or 'jump'}, t={consts or 'var'}, r={1,2,...})"""
+    pcs, ts, rs = set(), set(), set()
+    for g, e in canon_items:
+        regs = dict(e[0])
+        pc = regs.get(24, ('reg', 24))
+        d = _const_delta(pc, 24)
+        pcs.add(d if d is not None else 'jump')
+        t = regs.get(25, ('reg', 25))
+        d = _const_delta(t, 25)
+        ts.add(d if d is not None else 'var')
+        r = regs.get(15, ('reg', 15))
+        if r[0] == 'rinc' and r[1] == ('reg', 15):
+            rs.add(r[2])
+        elif r == ('reg', 15):
+            rs.add(0)
+        else:
+            rs.add('other')
+    return {'pc': pcs, 't': ts, 'r': rs}
